@@ -23,6 +23,7 @@ CONSTANTS
     AnyTarget,    \* TRUE: operations may target any member (clone families, C19); FALSE: only the newest
     AutoData,     \* TRUE: AppendData gets a string determined by (member, how many appends it had) - distinct per
                   \*   member so that an aliasing write shows, two lines on a member's second append, a comment on its third; FALSE: DataStrs
+    FieldOnce,    \* TRUE: at most one ID assignment and one type assignment per message
     ViewHist,     \* TRUE: every operation sequence is explored (C14: every route x input); FALSE: one per family value
     CapClone      \* TRUE: Clone limits the capacity of the chunk slice (as the code does); FALSE: sensitivity variant
 
@@ -98,13 +99,15 @@ AppendText(i, s, cm) ==
     /\ BumpApp(i)
     /\ Rec([op |-> IF cm THEN "comment" ELSE "data", i |-> i, s |-> s, route |-> "", j |-> 0, err |-> FALSE, panic |-> FALSE])
 
+Assigned(i, what) == \E k \in 1..Len(hist) : hist[k].op = what /\ hist[k].i = i
+
 SetID(i, route, s) ==
-    /\ CanOp(i)
+    /\ CanOp(i) /\ (FieldOnce => ~Assigned(i, "id"))
     /\ msgs' = [msgs EXCEPT ![i].id = FieldFrom(route, s, msgs[i].id).f] /\ arrays' = arrays
     /\ Bump(i) /\ Rec([op |-> "id", i |-> i, s |-> s, route |-> route, j |-> 0,
                         err |-> FieldFrom(route, s, msgs[i].id).err, panic |-> FieldFrom(route, s, msgs[i].id).panic])
 SetType(i, route, s) ==
-    /\ CanOp(i)
+    /\ CanOp(i) /\ (FieldOnce => ~Assigned(i, "type"))
     /\ msgs' = [msgs EXCEPT ![i].type = FieldFrom(route, s, msgs[i].type).f] /\ arrays' = arrays
     /\ Bump(i) /\ Rec([op |-> "type", i |-> i, s |-> s, route |-> route, j |-> 0,
                         err |-> FieldFrom(route, s, msgs[i].type).err, panic |-> FieldFrom(route, s, msgs[i].type).panic])
